@@ -9,6 +9,14 @@ LIBC_ALLOC = {"malloc", "calloc", "realloc", "free", "strdup", "strndup", "alloc
 LIBC_ALLOC |= {"__builtin_" + f for f in ("malloc", "calloc", "realloc", "free", "strdup", "strndup", "alloca", "aligned_alloc", "alloca_with_align")}
 LIBC_ALLOC |= {"memalign", "valloc", "pvalloc", "cfree", "asprintf", "vasprintf", "getline", "getdelim", "open_memstream", "realpath", "mmap", "munmap", "sbrk", "brk"}
 ALLOC_PTRS = {"_cbor_malloc", "_cbor_realloc", "_cbor_free"}
+# libc functions that keep or return static storage / process-wide state (C11 7.1.4p5 "not required to avoid data races", POSIX
+# "need not be thread-safe"): calling one from the library makes the library share mutable state between threads
+LIBC_STATE = {"gmtime", "localtime", "ctime", "asctime", "strtok", "rand", "srand", "random", "srandom", "drand48", "lrand48", "mrand48",
+              "srand48", "strerror", "strsignal", "setlocale", "localeconv", "tmpnam", "tempnam", "mktemp", "getenv", "setenv", "putenv", "unsetenv",
+              "readdir", "getpwnam", "getpwuid", "getgrnam", "getgrgid", "gethostbyname", "gethostbyaddr", "inet_ntoa", "ttyname", "getlogin",
+              "basename", "dirname", "ecvt", "fcvt", "gcvt", "l64a", "nl_langinfo", "mbrtowc", "wcrtomb", "mbtowc", "wctomb", "mblen", "mbstowcs",
+              "wcstombs", "mbsrtowcs", "wcsrtombs", "catgets", "crypt", "encrypt", "setkey", "hcreate", "hsearch", "hdestroy", "lgamma", "lgammaf",
+              "signal", "atexit", "exit", "abort", "longjmp", "setjmp", "fesetround", "fesetenv", "feclearexcept", "feraiseexcept", "fesetexceptflag"}
 
 def walk(n, fn, ctx=None):
     if not isinstance(n, dict):
@@ -106,6 +114,7 @@ def mem_lvalue(lhs, locals_):
 
 def scan(cfg):
     globals_, assigns, allocsites, libc, notes = {}, set(), {}, set(), []
+    libc_state = set()
     fields, narrowing = {}, {}
     arms = set()
     funcs, locals_ = {}, set()     # call graph / stores through memory, per function defined (with a body) under src/
@@ -308,6 +317,8 @@ def scan(cfg):
                 if nm in LIBC_ALLOC and n.get("referencedDecl", {}).get("kind") == "FunctionDecl":
                     infile = cur_file[0] or ""
                     libc.add((rel, ctx or "<file scope>", nm))
+                if nm in LIBC_STATE and n.get("referencedDecl", {}).get("kind") == "FunctionDecl" and (cur_file[0] or "").startswith(src_prefix):
+                    libc_state.add((rel, ctx or "<file scope>", nm))
         walk(tu, visit)
     # AUDIT2: the translators read ONE preprocessor configuration (clang, the cmake definitions, neither NDEBUG nor DEBUG), the
     # library is compiled by gcc with other definitions: code under `#ifdef NDEBUG` / `__clang__` / `__OPTIMIZE__` .. would be
@@ -349,7 +360,7 @@ def scan(cfg):
             "libc": sorted(libc),
             "fields": sorted((st, f, b) for (st, f), b in fields.items()),
             "narrowing": sorted((f, fn, a, b, c) for (f, fn, a, b), c in narrowing.items()),
-            "arms": sorted(arms), "ppmacros": sorted(ppmacros),
+            "arms": sorted(arms), "ppmacros": sorted(ppmacros), "libc_state": sorted(libc_state),
             "callgraph": sorted((fn, d["file"], d["stores"], sorted(d["callees"] - {fn})) for fn, d in funcs.items())}, notes
 
 def q(s):
@@ -385,6 +396,10 @@ def emit(inv):
     lines.append("(* AUDIT2: arms of union cbor_item_metadata accessed in the .c files: (file, function, arm) *)")
     lines.append("Definition gen_union_arms : list (string * string * string) := [")
     lines.append(";\n".join("  (%s, %s, %s)" % (q(f), q(fn), q(a)) for (f, fn, a) in inv.get("arms", [])))
+    lines.append("].")
+    lines.append("(* references to libc functions that keep or hand out static / process-wide state (gmtime, strtok, rand, setlocale, ..): (file, function, name) *)")
+    lines.append("Definition gen_libc_state_refs : list (string * string * string) := [")
+    lines.append(";\n".join("  (%s, %s, %s)" % (q(f), q(fn), q(n)) for (f, fn, n) in inv.get("libc_state", [])))
     lines.append("].")
     lines.append("(* call graph of the functions defined (with a body) under src/: (function, file, number of stores through memory - "
                  "`*p = ..`, `p->f = ..`, `p[i] = ..`, a global, incl. `op=` / `++` / `--`; stores to automatic variables and parameters "
